@@ -323,9 +323,8 @@ std::string href_from_file(std::string_view input) {
 
 bool can_parse(std::string_view input, const std::string_view* base_input) {
   // Must match parse().has_value(), including post-normalization max length.
-  // Percent-encoding expands a byte by at most 3x. When the input (plus base,
-  // if any) fits in max_length/3, the normalized href cannot exceed
-  // max_length, so validation-only parsing (store_values=false) is safe.
+  // Validation-only parsing (store_values=false) is used whenever an upper
+  // bound on the normalized href shows that the length check cannot trip.
 
   // Hot path first: absolute special URLs, no base. Avoid loading max_length
   // until we need it (common absolute-fast true/false cases).
@@ -360,27 +359,40 @@ bool can_parse(std::string_view input, const std::string_view* base_input) {
     return false;
   }
 
-  // Relative resolution combines base + input; bound the sum so 3x expansion
-  // of either side cannot push the final href past max_length.
-  const size_t combined =
-      input.size() + (base_input == nullptr ? 0 : base_input->size());
-  const bool size_safe = combined <= static_cast<size_t>(max_length) / 3;
-
-  if (size_safe) {
-    // Validation-only: no buffer build, host still fully checked.
-    ada::url_aggregator base_agg;
-    ada::url_aggregator* base_ptr = nullptr;
-    if (base_input != nullptr) {
-      base_agg = ada::parser::parse_url_impl<ada::url_aggregator, false>(
-          *base_input, nullptr);
-      if (!base_agg.is_valid) {
-        return false;
-      }
-      base_ptr = &base_agg;
+  // Validation-only pass first: no path/query/fragment is built, but the scheme
+  // and the host are fully processed and, for a relative input, the base's
+  // authority is copied. A failure here is a failure of parse() under any limit.
+  ada::url_aggregator base_agg;
+  ada::url_aggregator* base_ptr = nullptr;
+  if (base_input != nullptr) {
+    base_agg = ada::parser::parse_url_impl<ada::url_aggregator, false>(
+        *base_input, nullptr);
+    if (!base_agg.is_valid) {
+      return false;
     }
-    return ada::parser::parse_url_impl<ada::url_aggregator, false>(input,
-                                                                   base_ptr)
-        .is_valid;
+    base_ptr = &base_agg;
+  }
+  {
+    const ada::url_aggregator validated =
+        ada::parser::parse_url_impl<ada::url_aggregator, false>(input, base_ptr);
+    if (!validated.is_valid) {
+      return false;
+    }
+    // Upper bound on the normalized href (of the base and of the result): what
+    // validation already materialized (scheme, normalized host, port) plus at
+    // most 3x percent-encoding expansion of every input byte plus a few
+    // structural bytes ("//", "/", "/."). The host must come from the
+    // materialized buffers: IDNA and IPv4 canonicalization can expand it far
+    // beyond 3x ("ws:1" -> "ws://0.0.0.1/").
+    const uint64_t combined =
+        uint64_t(input.size()) +
+        (base_input == nullptr ? 0 : uint64_t(base_input->size()));
+    const uint64_t bound = uint64_t(base_agg.get_href_size()) +
+                           uint64_t(validated.get_href_size()) + 3 * combined +
+                           8;
+    if (bound <= max_length) {
+      return true;
+    }
   }
 
   // Near the limit: full parse so post-normalization length matches parse().
@@ -389,9 +401,8 @@ bool can_parse(std::string_view input, const std::string_view* base_input) {
                                                                   nullptr)
         .is_valid;
   }
-  ada::url_aggregator base_agg =
-      ada::parser::parse_url_impl<ada::url_aggregator, true>(*base_input,
-                                                             nullptr);
+  base_agg = ada::parser::parse_url_impl<ada::url_aggregator, true>(
+      *base_input, nullptr);
   if (!base_agg.is_valid) {
     return false;
   }
